@@ -445,6 +445,9 @@ def gen_ori(rng, exact, n):
 def gen_ops(rng, exact, scale, n, nops):
     ops = []
     means = 0
+    # some histories only ever tilt the probe by tiny angles (mis-alignments of 1e-5 .. 5e-3 rad): the accumulated
+    # rotation stays small, and reset_position must still undo it exactly
+    small_only = (not exact) and rng.random() < 0.2
     for _ in range(nops):
         k = rng.choice(["rot", "tr", "flip", "toO", "ref", "reset"], p=[0.32, 0.22, 0.08, 0.1, 0.2, 0.08])
         if k == "rot":
@@ -454,7 +457,9 @@ def gen_ops(rng, exact, scale, n, nops):
             else:
                 far = rng.choice([1.0, 1.0, 30.0])
                 c = None if rng.random() < 0.25 else (rng.standard_normal(3) * scale * far).tolist()
-                if rng.random() < 0.12:      # angles on special values
+                if small_only:
+                    ang = [float(rng.choice([-1, 1]) * 10 ** rng.uniform(-5, -2.3)) for _ in range(3)]
+                elif rng.random() < 0.12:      # angles on special values
                     ang = [float(rng.choice([0.0, np.pi / 2, -np.pi / 2, np.pi, -np.pi, 2 * np.pi, np.pi / 4])) for _ in range(3)]
                 else:
                     ang = [float(rng.uniform(-2 * np.pi, 2 * np.pi)) for _ in range(3)]
@@ -496,6 +501,8 @@ def gen_ops(rng, exact, scale, n, nops):
             else:
                 r = str(r)
             ops.append(["S", r])
+    if small_only:
+        ops = [(["Z"] if o[0] == "F" else o) for o in ops] + [["Z"]]     # no half-turn flips; always end on a reset
     return ops
 
 
